@@ -111,19 +111,30 @@ TSetCfg == /\ IsEv("setcfg")
 
 \* migration of a JSON file (C18).  sigs = the signatures the file encodes, in
 \* file order; complete = the bytes handed to the store are the whole well-formed
-\* file.  A complete file must succeed with n = |list| and last-wins upserts; an
-\* incomplete one must report an error (no short success) and may have applied
-\* any prefix of the list, which the logged post-state listing pins down.
+\* file.  A success must NEVER be short: it reports n = |list| and leaves the
+\* last-wins upserts of the whole list (so a complete file must succeed, and a
+\* cut file may only "succeed" if nothing of the list was lost).  A reported error
+\* may have applied any prefix of the list, which the logged post-state listing
+\* pins down.
+\* smallest k such that applying the first k entries of q to S yields the listing
+\* `seen`, or -1; linear in Len(q) (the state is carried along)
+RECURSIVE FindPrefix(_, _, _, _)
+FindPrefix(S, q, k, seen) ==
+  IF Proj(S) = seen THEN k
+  ELSE IF k = Len(q) THEN -1
+  ELSE FindPrefix(Upsert(S, q[k + 1]), q, k + 1, seen)
+
 TMigrate ==
   /\ IsEv("migrate")
-  /\ LET q == Resolve(e.sigs, e.rids) IN
-     IF e.complete
-     THEN /\ Judge(~e.err /\ e.n = Len(e.sigs))
-          /\ sigs' = UpsertAll(sigs, q)
-     ELSE LET seen == ProjSeq(e.post)
-              ks == {k \in 0..Len(q) : Proj(UpsertAll(sigs, SubSeq(q, 1, k))) = seen}
-          IN /\ Judge(e.err /\ NoDup(e.post) /\ ks # {})
-             /\ sigs' = IF ks = {} THEN sigs ELSE UpsertAll(sigs, SubSeq(q, 1, CHOOSE k \in ks : TRUE))
+  /\ LET q == Resolve(e.sigs, e.rids)
+         seen == ProjSeq(e.post)
+         full == UpsertAll(sigs, q)
+     IN IF ~e.err
+        THEN /\ Judge(e.n = Len(e.sigs) /\ NoDup(e.post) /\ seen = Proj(full))
+             /\ sigs' = full
+        ELSE LET k == FindPrefix(sigs, q, 0, seen)
+             IN /\ Judge(~e.complete /\ NoDup(e.post) /\ k >= 0)
+                /\ sigs' = IF k < 0 THEN sigs ELSE UpsertAll(sigs, SubSeq(q, 1, k))
   /\ l' = l + 1 /\ UNCHANGED <<cfg, be, mode, alt>>
 
 \* ---------------- queries ----------------
